@@ -9,6 +9,7 @@ import (
 	"github.com/named-data/ndnd/fw/table"
 	enc "github.com/named-data/ndnd/std/encoding"
 	basic_engine "github.com/named-data/ndnd/std/engine/basic"
+	spec "github.com/named-data/ndnd/std/ndn/spec_2022"
 )
 
 // VerifRegisterRoute is the table part of rib/register (existence check of
@@ -25,4 +26,46 @@ func VerifNlsrReadvertiser() (r table.RibReadvertise, drain func() [][]byte) {
 	m.timer = basic_engine.NewTimer()
 	m.transport = face.MakeInternalTransport()
 	return NewNlsrReadvertiser(m), func() [][]byte { return face.VerifDrainInternalTransport(m.transport) }
+}
+
+// VerifDatasetHandlers returns functions that run the real fib/list and
+// strategy-choice/list handlers (on a management thread that is not running)
+// and return the content of the dataset each publishes.
+func VerifDatasetHandlers() (fibList func() []byte, strategyList func() []byte) {
+	m := new(Thread)
+	m.timer = basic_engine.NewTimer()
+	m.localPrefix, _ = enc.NameFromStr("/localhost/nfd")
+	m.nonLocalPrefix, _ = enc.NameFromStr("/localhop/nfd")
+	m.transport = face.MakeInternalTransport()
+	fibM, stratM := new(FIBModule), new(StrategyChoiceModule)
+	fibM.registerManager(m)
+	stratM.registerManager(m)
+	content := func() []byte {
+		var out []byte
+		for _, frame := range face.VerifDrainInternalTransport(m.transport) {
+			pkt, _, err := spec.ReadPacket(enc.NewBufferReader(frame))
+			if err != nil || pkt.LpPacket == nil {
+				continue
+			}
+			inner, _, err := spec.ReadPacket(enc.NewWireReader(pkt.LpPacket.Fragment))
+			if err != nil || inner.Data == nil {
+				continue
+			}
+			out = append(out, inner.Data.Content().Join()...)
+		}
+		return out
+	}
+	request := func(module string) *spec.Interest {
+		name, _ := enc.NameFromStr("/localhost/nfd/" + module + "/list")
+		return &spec.Interest{NameV: name}
+	}
+	fibList = func() []byte {
+		fibM.list(request("fib"), nil, 0)
+		return content()
+	}
+	strategyList = func() []byte {
+		stratM.list(request("strategy-choice"), nil, 0)
+		return content()
+	}
+	return
 }
